@@ -1,0 +1,68 @@
+//! Verification hook (cargo feature `zvt_verif`).
+//!
+//! Replaces the TCP socket type used by the reconnecting stream with an
+//! in-memory connector, so a simulated terminal and tokio's paused clock can
+//! drive the real client deterministically. Nothing in here is compiled
+//! unless the feature is enabled.
+use std::cell::RefCell;
+use std::future::Future;
+use std::io;
+use std::net::SocketAddrV4;
+use std::pin::Pin;
+use std::task::{Context, Poll};
+use tokio::io::{AsyncRead, AsyncWrite, ReadBuf};
+
+pub trait VerifIo: AsyncRead + AsyncWrite + Unpin + Send {}
+impl<T: AsyncRead + AsyncWrite + Unpin + Send> VerifIo for T {}
+
+pub type ConnectFuture = Pin<Box<dyn Future<Output = io::Result<Box<dyn VerifIo>>> + Send>>;
+pub type Connector = Box<dyn FnMut(SocketAddrV4) -> ConnectFuture>;
+
+thread_local! {
+    static CONNECTOR: RefCell<Option<Connector>> = RefCell::new(None);
+}
+
+/// Installs (or clears) the connector of the calling thread.
+pub fn set_connector(connector: Option<Connector>) {
+    CONNECTOR.with(|c| *c.borrow_mut() = connector);
+}
+
+/// Stand-in for [tokio::net::TcpStream].
+pub struct VerifTcpStream(Box<dyn VerifIo>);
+
+impl VerifTcpStream {
+    pub async fn connect(addr: SocketAddrV4) -> io::Result<Self> {
+        let fut = CONNECTOR
+            .with(|c| c.borrow_mut().as_mut().map(|f| f(addr)))
+            .ok_or_else(|| io::Error::new(io::ErrorKind::NotConnected, "no connector installed"))?;
+        Ok(Self(fut.await?))
+    }
+}
+
+impl AsyncRead for VerifTcpStream {
+    fn poll_read(
+        mut self: Pin<&mut Self>,
+        cx: &mut Context<'_>,
+        buf: &mut ReadBuf<'_>,
+    ) -> Poll<io::Result<()>> {
+        Pin::new(&mut *self.0).poll_read(cx, buf)
+    }
+}
+
+impl AsyncWrite for VerifTcpStream {
+    fn poll_write(
+        mut self: Pin<&mut Self>,
+        cx: &mut Context<'_>,
+        buf: &[u8],
+    ) -> Poll<io::Result<usize>> {
+        Pin::new(&mut *self.0).poll_write(cx, buf)
+    }
+
+    fn poll_flush(mut self: Pin<&mut Self>, cx: &mut Context<'_>) -> Poll<io::Result<()>> {
+        Pin::new(&mut *self.0).poll_flush(cx)
+    }
+
+    fn poll_shutdown(mut self: Pin<&mut Self>, cx: &mut Context<'_>) -> Poll<io::Result<()>> {
+        Pin::new(&mut *self.0).poll_shutdown(cx)
+    }
+}
